@@ -20,6 +20,7 @@ LEVELS = {
  "C03": ("exploration", "4.C03", "Generated programs x generated segmentation schedules (bounded runs exclusive/inclusive, steps, pauses forced deterministically by parking a handler at a gate while stop() is issued, cuts at/between event times, at warm-up, at/beyond the end, before the clock): after every segment the executed events, clock, state, pending size and END_REPLICATION notification are compared with the reference interpreter, and the concatenation with one uninterrupted run. Held = all segments and compositions agreed.", "Open points of the statement are accepted in every reading (listed in the evidence assumptions); pauses land between events, never inside the library's own transitions (that is C04)."),
  "C05": ("fault_enumeration", "4.C05", "For every generated program each single executed event is made to fail in turn (all singles), then pairs and random subsets, at varying positions inside the handler, under log/warn/pause strategies and start / bounded / step / mixed drivers; after every run segment the executed events, state, clock and pending size are compared with the reference interpreter (continue = as if the handler had returned at the raise; pause = stop right after the failing event, resume runs exactly the rest). Held = all fault sets explored agreed.", "Fault = exception raised by the handler; WARN_AND_END/EXIT outside the statement; a failing step may return or raise DSOLError."),
  "C06": ("exploration", "4.C06", "Differential: after a generated prior history (fresh / stepped / paused at an event / bounded run / ended / ended twice / paused by a handler fault / cleaned up / initialise refused while running) the same simulator and model are initialised again and run; trace, clock, state, notification stream, every statistics getter (hex) and the output-statistic map are compared with the same replication on a brand-new simulator; the state right after initialize is compared too. Held = no difference on the histories explored.", "Streams are re-created with the same seed in construct_model; same model object and replication settings."),
+ "C11": ("exploration", "4.C11", "Generated programs with observation actions (register and data events; float/int/Duration clocks; warm-up at 0 / inside / at the end; ties at the warm-up instant; optional forced pauses): one global timeline of handlers, notifications and observations; at the end every simulation statistic equals bit-for-bit an ordinary statistic fed the post-warm-up observations (persistent: closed at the end, plus exact rational time average), the WARMUP notification sits after all earlier events and before every priority<10 event of its instant, statistics are retrievable under their key, and every published payload equals the getter called inside that notification. Held = all agreed.", "Observations made at exactly the warm-up time before the warm-up notification are ambiguous in the statement and not value-judged."),
 }
 
 def main():
